@@ -118,7 +118,7 @@ def install():
     _P.update(bp=bp, model=model, Base=Base, ParserError=bp.ParserError,
               entry={"feature": bp.parse_feature, "rule": bp.parse_rule, "scenario": bp.parse_scenario,
                      "steps": bp.parse_steps, "tags": bp.parse_tags},
-              states=[s.name for s in bp.State])
+              states=[s.name for s in bp.State if hasattr(Base, "action_" + s.name.lower())])
     return _P
 
 
@@ -165,11 +165,11 @@ def abstract(p):
             (p.examples is not None, bool(p.examples)), doc)
 
 
-def abstract_tags(text):
+def abstract_tags(text, hlen):
     """parse_tags has no line machine: everything its future depends on is
-    (text empty?, first character '@'?, a comment word already seen?)"""
+    (no line yet?, text empty?, first character '@'?, a comment word already seen?)"""
     words = text.split()
-    return ("tags", text == u"", text.startswith(u"@"), any(w.startswith(u"#") for w in words))
+    return ("tags", hlen == 0, text == u"", text.startswith(u"@"), any(w.startswith(u"#") for w in words))
 
 
 def exc_site(e):
@@ -185,7 +185,7 @@ def exc_site(e):
     return name
 
 
-def run_text(entry, text):
+def run_text(entry, text, hlen=None):
     """-> (outcome, dead, abstract_state_or_None, action_calls, result)
 
     outcome = ("ok", typename) | ("PE", line, site) | ("EXC", exception typename, site)
@@ -204,7 +204,7 @@ def run_text(entry, text):
     dead = REC.inflight
     if entry == "tags":
         dead = out[0] != "ok"
-        snap = None if dead else abstract_tags(text)
+        snap = None if dead else abstract_tags(text, hlen)
     elif dead:
         snap = None
     elif REC.snap is not None:
@@ -220,7 +220,7 @@ def run_text(entry, text):
 
 
 def run_history(entry, hist):
-    return run_text(entry, text_of(hist))
+    return run_text(entry, text_of(hist), len(hist))
 
 
 def nlines(text):
@@ -252,5 +252,8 @@ def invariant(entry, text, out, calls, where):
 def outclass(out, hlen):
     """outcome class used for the abstraction cross-check: line numbers relative to the end of the history"""
     if out[0] == "PE":
-        return ("PE", (out[1] - hlen) if isinstance(out[1], int) else repr(out[1]), out[2])
+        line = out[1]
+        if isinstance(line, int) and line >= 1:
+            return ("PE", line - hlen, out[2])
+        return ("PE", "abs:%r" % (line,), out[2])      # not a line of the text at all (reported by the invariant)
     return out
